@@ -64,9 +64,24 @@ func (v Value) Expr() *expr.Expression {
 		return expr.WILD(v.Text)
 	case VRegexp:
 		return expr.REGEXP(v.Text)
+	case VWord:
+		// a backslash makes the next character part of the word and is not part of the value
+		return expr.Lit(Unescape(v.Text))
 	default:
 		return expr.Lit(v.Text)
 	}
+}
+
+// Unescape removes the escaping backslashes of a bare word.
+func Unescape(s string) string {
+	var sb strings.Builder
+	for i := 0; i < len(s); i++ {
+		if s[i] == '\\' && i+1 < len(s) {
+			i++
+		}
+		sb.WriteByte(s[i])
+	}
+	return sb.String()
 }
 
 // Leaf kinds
